@@ -279,6 +279,8 @@ struct View {
     unanswered_validation: Option<usize>,
     /// the A–B link was cut while this view was open (or it opened over a dead link): Closed is owed
     must_close: Option<usize>,
+    /// a new stream was reported opened while the Closed of the previous connection's stream was still owed
+    late_close_of_previous_stream: bool,
 }
 
 impl View {
@@ -404,8 +406,14 @@ fn oracle(log: &[Entry], scn: &NotifScenario, ab_live_at_end: bool) -> Vec<Viol>
                 let link_down = in_ab(*x, *y) && !ab_up;
                 let me = &mut v[cl(*x)][cl(*y)];
                 if me.open {
+                    // cause class: the stream still open per the user's log belongs to a connection that has been lost
+                    // (its Closed is merely late) / it is a stream of the live connection
+                    let cause = if me.must_close.is_some() { "previous-stream-of-lost-connection-not-yet-closed" } else { "stream-of-live-connection" };
+                    if me.must_close.is_some() {
+                        me.late_close_of_previous_stream = true;
+                    }
                     out.push(Viol::new(
-                        "notif/grammar/opened-while-open",
+                        format!("notif/grammar/opened-while-open/{cause}"),
                         format!("{}: NotificationStreamOpened for {} while the stream to that peer is already open (no Closed in between); {}", name(*x), name(*y), ctx(i)),
                     ));
                 }
@@ -431,8 +439,10 @@ fn oracle(log: &[Entry], scn: &NotifScenario, ab_live_at_end: bool) -> Vec<Viol>
             Entry::Closed { x, y } => {
                 let me = &mut v[cl(*x)][cl(*y)];
                 if !me.open {
+                    let cause = if me.late_close_of_previous_stream { "second-close-after-late-close-of-previous-stream" } else { "no-stream" };
+                    me.late_close_of_previous_stream = false;
                     out.push(Viol::new(
-                        "notif/grammar/closed-while-not-open",
+                        format!("notif/grammar/closed-while-not-open/{cause}"),
                         format!("{}: NotificationStreamClosed for {} without a preceding NotificationStreamOpened; {}", name(*x), name(*y), ctx(i)),
                     ));
                 }
@@ -489,10 +499,10 @@ fn oracle(log: &[Entry], scn: &NotifScenario, ab_live_at_end: bool) -> Vec<Viol>
         if o.answered || o.cut_after {
             continue;
         }
-        // a validation request that came up after the command and that the scripted user never answered keeps the
-        // negotiation legitimately pending (the 10 s / 5 s real-time timers are outside the explored space)
-        let waiting = [&v[cl(o.x)][cl(o.y)], &v[cl(o.y)][cl(o.x)]].iter().any(|w| w.unanswered_validation.is_some_and(|j| j > o.idx));
-        if waiting {
+        // an open request that waits for a validation the REMOTE's user never answers is ended by the opener's 10 s
+        // negotiation timeout (virtual clock): no exemption. A validation request of the counter-stream that the
+        // opener's OWN user never answers keeps the request legitimately pending (the protocol re-checks every 5 s)
+        if v[cl(o.x)][cl(o.y)].unanswered_validation.is_some_and(|j| j > o.idx) {
             continue;
         }
         let situation = if o.rejected_locally {
@@ -655,6 +665,12 @@ impl Scenario for NotifScenario {
 
     fn lazy_count(&self, st: &St, _w: &World) -> usize {
         usize::from(st.pc < self.program.len())
+    }
+
+    /// once everything is quiescent, 4 x 6 s of virtual time: the protocol's negotiation timeout (10 s) and its
+    /// validation re-check timer (5 s) run on the runtime clock (cfg hook) and get their chance to fire
+    fn time(&self) -> (u32, Duration) {
+        (4, Duration::from_secs(6))
     }
 
     fn lazy_apply(&self, st: &mut St, w: &mut World, _k: usize) {
@@ -939,10 +955,10 @@ pub fn run(ctx: &mut Ctx) {
     ctx.assume("SimNet's connection task mirrors transport/tcp/connection.rs over real yamux + multistream-select + ProtocolSet; Noise/TCP below yamux is replaced by an in-memory pipe (DESIGN §2.3)");
     ctx.assume("interleaving granularity is one poll of one task; tokio::select! branch order inside a poll is fixed by the runtime seed");
     ctx.assume(
-        "the notification protocol's negotiation timeout (10 s) and 'peer did not answer' timer (5 s) are futures_timer::Delay REAL-TIME timers: they never fire in these \
-         millisecond executions, so their expiry paths are NOT explored; an open request that waits for a validation the scripted user never answers is therefore not owed a result",
+        "the notification protocol's negotiation timeout (10 s) and 'peer did not answer' timer (5 s) run on the runtime's virtual clock (cfg hook replacing futures_timer::Delay): \
+         after quiescence every execution lets 4 x 6 s pass, so every pending negotiation is ended by its timeout and every accepted open request is owed a result",
     );
-    ctx.assume("keep-alive timeout 60 s, no idle clock ticks: connections are only lost through the scripted cut(A-B)");
+    ctx.assume("keep-alive timeout 60 s > the 24 s of idle clock ticks: connections are only lost through the scripted cut(A-B)");
     ctx.assume("'connected' is the harness's ground truth: the A-B carrier was not cut, or after a cut an uncut carrier exists and both nodes reported ConnectionEstablished for the other one");
 }
 
